@@ -9,7 +9,27 @@ truth and the order in which the binary analysed the definitions, and its
 displayed sequence / exit status / summary / SARIF are compared with the real
 binary's over the option lattice. The property text itself (conservation,
 filter law, exit/summary/SARIF contract) is evaluated on every run as the
-oracle."""
+oracle.
+
+Added after the outside review (design.d/AUDIT.md, section C03):
+* the set of user definitions is known independently of the binary AND of the
+  in-process parse: the generator's own record of what it wrote into the files
+  named on the command line (corpus: `expect.user_defs`), cross-checked by a
+  textual scan of the sources.  On every run the analysis order logged by the
+  binary must be a permutation of exactly that set (hypothesis `analysis_order`
+  of the theorems), and so must the user keys of the in-process parse; the
+  model is fed the logged order only when it is such a permutation, otherwise
+  the independent set, so a definition skipped by the binary is never skipped
+  by the model (C03_only_analysed_definitions_displayed says it would be);
+* projects with 256, 257.., 512 trivially flagged statements, so that runs with
+  exactly 256 and 512 displayed diagnostics (an exit status that wraps at a
+  byte) are part of the differential run;
+* the interface through which a pass can see the runner is re-read from the
+  source on every run (12 passes ignore the context, one calls only
+  `context.template`), and a `context.function` lookup recorded by the harness
+  (not mirrored by the model) is reported."""
+import os
+import re
 import shutil
 
 import common
@@ -20,7 +40,117 @@ def gen(ctx):
     e2e.gen_category()
 
 
-def make_projects(ctx, base, n_lattice, n_sampled):
+# --------------------------------------------------------------------------
+# the user definitions, known without asking the binary or the parser
+# --------------------------------------------------------------------------
+
+def user_defs_of_structure(st):
+    """What the generator wrote: (kind, name) of every definition of every file
+    that is named on the command line."""
+    return sorted([d[0], d[1]] for f in st["files"] if f["user"] for d in f["defs"])
+
+
+DEF_RE = re.compile(r"\b(template|function)(?:\s+(?:custom|parallel))*\s+([A-Za-z_$][A-Za-z0-9_$]*)\s*\(")
+
+
+def scan_definitions(text):
+    """Textual scan (comments removed) for `template X(` / `function f(`."""
+    text = re.sub(r"/\*.*?\*/", " ", text, flags=re.S)
+    text = re.sub(r"//[^\n]*", " ", text)
+    return sorted([m.group(1), m.group(2)] for m in DEF_RE.finditer(text))
+
+
+def scan_user_defs(project):
+    out = []
+    for a in project.argv:
+        if a in project.files:
+            out += scan_definitions(project.files[a])
+    return sorted(out)
+
+
+def independent_user_defs(project):
+    """-> sorted list of (kind, name) or None if nothing is known."""
+    d = project.meta.get("user_defs")
+    if d is None:
+        d = (project.meta.get("expect") or {}).get("user_defs")
+    return None if d is None else sorted((k, n) for k, n in d)
+
+
+def big_structure(rng, counts, extra_template=False):
+    """One user file; function h<i> has counts[i] statements `acc = acc * x + c;`
+    each of which is flagged once (field element arithmetic, CS0004, info)."""
+    defs = []
+    for i, n in enumerate(counts):
+        lines = ["var acc = 1;"]
+        for _ in range(n):
+            lines.append("acc = acc * x + %d;" % rng.randint(2, 99999))
+        lines.append("return acc;")
+        defs.append(("function", "h%d" % i, "function h%d(x) {\n    %s\n}" % (i, "\n    ".join(lines))))
+    if extra_template:
+        defs.append(("template", "B0", e2e.template_text(rng, "B0", ["unused", "sig", "cmp"], [])))
+    return {"files": [{"name": "user0.circom", "user": True, "pragma": True, "includes": [], "defs": defs, "main": None}]}
+
+
+EXPECTED_CONTEXT_METHODS = ["function", "is_function", "is_template", "template", "underlying_str"]
+
+
+def pass_interface():
+    """How a pass can see the runner, re-read from the current source: the
+    methods of trait AnalysisContext, which entries of get_analysis_passes()
+    ignore the context (`|_, cfg|`), and which context methods the others call.
+    Returns (table, problems): problems is non-empty when the shape the model
+    relies on (only `template` lookups reach the runner) no longer holds."""
+    problems = []
+    src = os.path.join(common.REPO, "program_analysis", "src")
+    try:
+        lib = open(os.path.join(src, "lib.rs")).read()
+        trait = open(os.path.join(src, "analysis_context.rs")).read()
+        body = lib[lib.index("pub fn get_analysis_passes"):]
+        body = body[:body.index("\n}")]
+        entries = re.findall(r"Box::new\((.*?)\),?\s*\n", body)
+        tbody = trait[trait.index("pub trait AnalysisContext"):]
+        methods = sorted(set(re.findall(r"\bfn\s+(\w+)\s*[(<]", tbody)))
+    except (OSError, ValueError) as e:
+        return {}, ["cannot read the pass table: %s" % e]
+    free = [e for e in entries if re.match(r"\|_\s*,\s*\w+\|\s*\w+::\w+\(\w+\)$", e)]
+    using = [e for e in entries if e not in free]
+    calls = {}
+    for e in using:
+        m = re.match(r"(\w+)::(\w+)$", e)
+        if not m:
+            problems.append("pass entry of unknown shape: %s" % e)
+            continue
+        try:
+            text = open(os.path.join(src, m.group(1) + ".rs")).read()
+        except OSError:
+            problems.append("module of pass %s not found" % e)
+            continue
+        text = re.sub(r"//[^\n]*", "", text)
+        names = set(re.findall(r"(\w+)\s*:\s*&mut dyn AnalysisContext", text))
+        if not names:
+            problems.append("pass %s: no `&mut dyn AnalysisContext` parameter found" % e)
+        c = sorted({x for n in names for x in re.findall(r"\b%s\s*\.\s*(\w+)\s*\(" % re.escape(n), text)})
+        calls[e] = c
+        if [x for x in c if x != "template"]:
+            problems.append("pass %s calls context.%s (the model mirrors only template lookups)" % (e, c))
+    if methods != EXPECTED_CONTEXT_METHODS:
+        problems.append("trait AnalysisContext has methods %s, the model and the harness assume %s" % (methods, EXPECTED_CONTEXT_METHODS))
+    if not entries or len(free) + len(using) != len(entries):
+        problems.append("pass table not understood")
+    # nobody else in the crate touches the context
+    others = []
+    for f in sorted(os.listdir(src)):
+        if f.endswith(".rs") and f not in ("lib.rs", "analysis_context.rs", "analysis_runner.rs") \
+                and f[:-3] not in [e.split("::")[0] for e in using]:
+            if "AnalysisContext" in open(os.path.join(src, f)).read():
+                others.append(f)
+    if others:
+        problems.append("AnalysisContext is also used in %s" % others)
+    return {"trait_methods": methods, "passes": len(entries), "context_free_passes": len(free),
+            "context_using_passes": calls}, problems
+
+
+def make_projects(ctx, base, n_lattice, n_sampled, big_counts=()):
     """Corpus first, then generated projects. Returns (projects, truths, lattice_idx, sampled_idx)."""
     projects = []
     for rec in e2e.load_corpus("C03"):
@@ -31,9 +161,14 @@ def make_projects(ctx, base, n_lattice, n_sampled):
     # candidates: small ones for the full lattice, rich ones for sampled options
     cand = []
     for i in range(n_lattice * 4):
-        cand.append(e2e.render_structure(e2e.gen_structure(ctx.rng, rich=False), tag="small%d" % i))
+        st = e2e.gen_structure(ctx.rng, rich=False)
+        cand.append(e2e.render_structure(st, tag="small%d" % i, meta={"user_defs": user_defs_of_structure(st)}))
     for i in range(n_sampled):
-        cand.append(e2e.render_structure(e2e.gen_structure(ctx.rng, rich=True), tag="rich%d" % i))
+        st = e2e.gen_structure(ctx.rng, rich=True)
+        cand.append(e2e.render_structure(st, tag="rich%d" % i, meta={"user_defs": user_defs_of_structure(st)}))
+    for i, (counts, extra) in enumerate(big_counts):
+        st = big_structure(ctx.rng, counts, extra)
+        cand.append(e2e.render_structure(st, tag="big%d" % i, meta={"user_defs": user_defs_of_structure(st), "big": list(counts)}))
     projects += cand
     for i, p in enumerate(projects):
         p.write(base, i)
@@ -47,6 +182,8 @@ def make_projects(ctx, base, n_lattice, n_sampled):
         p.meta["ids"] = ids
         if i < ncorpus:
             (lattice_idx if len(ids) <= 6 else sampled_idx).append(i)
+        elif p.tag.startswith("big"):
+            pass                                   # run() gives them their own option sets
         elif p.tag.startswith("small"):
             if 3 <= len(ids) <= 6 and len([j for j in lattice_idx if j >= ncorpus]) < n_lattice:
                 lattice_idx.append(i)
@@ -57,6 +194,51 @@ def make_projects(ctx, base, n_lattice, n_sampled):
     return projects, truths, lattice_idx, sampled_idx, ncorpus
 
 
+def check_user_definitions(projects, truths, indep, runs, fail):
+    """Hypothesis `analysis_order` of the theorems, checked without trusting the
+    binary's log or the in-process parse.  Appends to `fail`; returns the number
+    of runs checked."""
+    static = {}
+    for i, p in enumerate(projects):
+        want = indep[i]
+        if want is None:
+            continue
+        what = []
+        t = truths[i]
+        if not t.bad:
+            tk = sorted((d["kind"], d["name"]) for d in t.defs if d["user"])
+            if tk != want:
+                what.append("the in-process parse yields the user definitions %s, the sources define %s"
+                            % ([x for x in tk if x not in want][:4] or tk[:6], [x for x in want if x not in tk][:4] or want[:6]))
+        if "user_defs" in p.meta:          # generated: the record and the text must agree (self-check of the generator)
+            sc = sorted((k, n) for k, n in scan_user_defs(p))
+            if sc != want:
+                what.append("textual scan of the user files finds %s, the generator recorded %s" % (sc[:6], want[:6]))
+        if what:
+            static[i] = what
+    checked = 0
+    for r in runs:
+        want = indep[r["p"]]
+        if want is None:
+            continue
+        checked += 1
+        what = list(static.pop(r["p"], []))
+        got = sorted(e2e.analysis_order(r["events"]))
+        if got != want and r.get("exit") in (0, 1):
+            missing = [x for x in want if x not in got]
+            extra = [x for x in got if x not in want]
+            twice = sorted({x for x in got if got.count(x) > 1})
+            what.append("the analysis order logged by the binary is not a permutation of the definitions of the user files: "
+                        "not analysed %s, analysed but not a user definition %s, analysed twice %s" % (missing[:4], extra[:4], twice[:4]))
+        if what:
+            if r.get("fail"):
+                r["fail"] += what          # the same list object as the entry in `fail`
+            else:
+                r["fail"] = what
+                fail.append({"run": e2e.run_brief(r), "project": projects[r["p"]].describe(), "what": what})
+    return checked
+
+
 def run(ctx, proofs):
     quick = ctx.tier == "quick"
     cli = common.build_cli()
@@ -65,8 +247,31 @@ def run(ctx, proofs):
     base = e2e.scratch_dir("C03")
     try:
         n_lattice, n_sampled, n_opts = (40, 110, 6) if quick else (150, 1200, 10)
-        projects, truths, lattice_idx, sampled_idx, ncorpus = make_projects(ctx, base, n_lattice, n_sampled)
+        # >= 256 displayed diagnostics: exactly 256, exactly 512, and a count in between
+        big = [((256,), False), ((256, 256), False), ((ctx.rng.randint(257, 300),), True)]
+        if not quick:
+            big += [((255,), False), ((256, 256, 256), False), ((1024,), False), ((ctx.rng.randint(513, 700),), True)]
+        projects, truths, lattice_idx, sampled_idx, ncorpus = make_projects(ctx, base, n_lattice, n_sampled, big)
+        big_idx = [i for i, p in enumerate(projects) if p.tag.startswith("big")]
+        indep = [independent_user_defs(p) for p in projects]
+        iface, iface_problems = pass_interface()
         runs = []
+        for i in big_idx:
+            ids = projects[i].meta.get("ids", [])
+            hist = {}
+            for q in ([] if truths[i].bad else truths[i].produced()):
+                k = truths[i].payload[q][0]["id"]
+                hist[k] = hist.get(k, 0) + 1
+            top = max(hist, key=hist.get) if hist else None
+            allow_sets = []
+            for a in ([], [x for x in ids if x != top], [top] if top else [], list(ids)):
+                if a not in allow_sets:
+                    allow_sets.append(a)
+            for lv in e2e.LEVELS:
+                for allow in allow_sets:
+                    for vb in (False, True):
+                        for sf in (False, True):
+                            runs.append({"p": i, "level": lv, "allow": allow, "verbose": vb, "sarif": sf, "big": True})
         for i in lattice_idx:
             runs += e2e.lattice_runs(i, projects[i].meta["ids"])
         for i in sampled_idx:
@@ -75,7 +280,16 @@ def run(ctx, proofs):
         for i in range(ncorpus):
             for _ in range(8):
                 runs.append({"p": i, "level": "info", "allow": [], "verbose": True, "sarif": True, "corpus": True})
-        dis, fail = e2e.evaluate(cli, projects, truths, runs)
+
+        def order_hook(r, logged):
+            # the model runs under the hypothesis `analysis_order`, established without the binary
+            want = indep[r["p"]]
+            if want is not None and sorted(logged) != want:
+                r["order_substituted"] = True
+                return list(want)
+            return logged
+        dis, fail = e2e.evaluate(cli, projects, truths, runs, order_hook)
+        order_checked = check_user_definitions(projects, truths, indep, runs, fail)
         # witnesses of the repaired defects must show their findings
         for r in runs:
             if r.get("corpus"):
@@ -108,6 +322,15 @@ def run(ctx, proofs):
                 if not rr["pfiles"]:
                     labelless += 1
         bad_truth = [projects[i].tag for i, t in enumerate(truths) if t.bad]
+        big_counts = {}
+        for r in runs:
+            if r.get("big"):
+                n = len([e for e in r["events"] if e[0] == "diag"])
+                if n >= 255:
+                    big_counts[n] = big_counts.get(n, 0) + 1
+        function_lookups = [(projects[i].tag, d["name"]) for i, t in enumerate(truths) if not t.bad
+                            for d in t.t["defs"] for l in (d.get("lookups") or []) if l.get("kind") != "template"]
+        no_indep = [projects[i].tag for i in range(len(projects)) if indep[i] is None]
         # ---- verdict
         for f in fail[:5]:
             ctx.violation("output contract violated: " + "; ".join(f["what"])[:400],
@@ -123,6 +346,21 @@ def run(ctx, proofs):
             elif proofs["failures"]:
                 ctx.violation("proof obligations of C03 no longer check: " + "; ".join(proofs["failures"])[:500],
                               {"broken": "props/C03.v", "failures": proofs["failures"]}, no_input=True)
+            elif iface_problems:
+                ctx.violation("the interface between the analysis passes and the runner is no longer the one Model.Runner mirrors: "
+                              + "; ".join(iface_problems)[:400],
+                              {"broken": "assumption `a pass sees the runner only through context.template` (Model.Runner.lookup, "
+                                         "harness/src/bin/e2e.rs Ctx)", "problems": iface_problems, "table": iface}, no_input=True)
+            elif function_lookups:
+                ctx.violation("a pass looked a function up through the context (%s); Model.Runner mirrors template lookups only"
+                              % function_lookups[:3], {"broken": "Model.Runner.lookup", "lookups": function_lookups[:20]}, no_input=True)
+            elif no_indep:
+                ctx.violation("no independent record of the user definitions for %s" % no_indep[:5],
+                              {"broken": "corpus/C03 expect.user_defs / generator record"}, no_input=True)
+            elif 256 not in big_counts or 512 not in big_counts or not [n for n in big_counts if n > 256 and n % 256]:
+                ctx.violation("generator degenerate: no run with exactly 256 / exactly 512 / another count above 256 displayed "
+                              "diagnostics (counts seen: %s)" % sorted(big_counts),
+                              {"broken": "big_structure of lib/props/C03.py"}, no_input=True)
             elif len(lattice_idx) - ncorpus < n_lattice // 2 or len(id_hist) < 10 or len(levels_seen) < 3 or not labelless:
                 ctx.violation("generator degenerate: %d lattice projects, %d ids, levels %s, %d label-less reports"
                               % (len(lattice_idx), len(id_hist), sorted(levels_seen), labelless),
@@ -141,6 +379,13 @@ def run(ctx, proofs):
             "distinct_analysis_orders_seen": len(seg_orders),
             "report_id_histogram": id_hist, "levels_seen": sorted(levels_seen), "label_less_reports": labelless,
             "projects_without_ground_truth": bad_truth,
+            "analysis_order_checked_runs": order_checked,
+            "analysis_order_check": "on every run the logged analysis order is compared (as a multiset) with the (kind, name) pairs the "
+                                    "generator wrote into the files named on the command line (corpus: expect.user_defs); the in-process "
+                                    "parse's user keys and a textual scan of the sources are compared with the same record",
+            "runs_with_substituted_order": len([r for r in runs if r.get("order_substituted")]),
+            "runs_by_displayed_count_255plus": {str(k): v for k, v in sorted(big_counts.items())},
+            "pass_interface": iface,
             "disagreements_model_vs_impl": len(dis), "spec_failures": len(fail),
             "samples": [{"argv": projects[r["p"]].argv, "options": {k: r[k] for k in ("level", "allow", "verbose", "sarif")},
                          "exit": r["exit"], "displayed": len([e for e in r["events"] if e[0] == "diag"])} for r in sample_runs],
@@ -151,7 +396,13 @@ def run(ctx, proofs):
             "state beyond `lookup succeeds iff the template lifts` is observed by the correspondence (and proved for the model: "
             "C17_lookup_result_is_lift_result)",
             "codespan rendering and clap are black boxes: stdout is parsed back into (severity, id, message, file:line:col headers)",
-            "HashMap iteration orders are parameters of the model; the binary's actual analysis order is read from its log lines",
+            "HashMap iteration orders are parameters of the model; the binary's actual analysis order is read from its log lines and "
+            "used only after it was checked to be a permutation of the user definitions recorded by the generator (otherwise the "
+            "recorded set is used and the run is a violation)",
+            "that a pass sees the runner only through `context.template` is read off the source on every run (12 of 13 passes are "
+            "closures `|_, cfg|` that drop the context; the 13th calls only `template`; trait AnalysisContext has 5 methods) and the "
+            "harness records every lookup; that the CFG a lookup returns is the same whichever state the runner is in is observed "
+            "(segment-wise comparison of the binary with the in-process ground truth, C17)",
             "SARIF serialisation failures (unwritable path) are outside the model",
         ]
     finally:
@@ -162,4 +413,31 @@ def replay(ctx, rep):
     if "project" not in rep:
         print("replay names a broken obligation, not an input:", rep.get("broken"))
         return 1
-    return e2e.replay_project(rep)
+    cli = common.build_cli()
+    base = e2e.scratch_dir("replay")
+    try:
+        p = e2e.project_from_description(rep["project"]).write(base, 0)
+        t = e2e.Truth(e2e.ground_truth([p])[0])
+        r = dict(rep.get("run") or {"level": "warning", "allow": [], "verbose": True, "sarif": True})
+        r["p"] = 0
+        r.pop("exit", None)
+        indep = [independent_user_defs(p)]
+
+        def order_hook(run, logged):
+            return list(indep[0]) if indep[0] is not None and sorted(logged) != indep[0] else logged
+        dis, fail = e2e.evaluate(cli, [p], [t], [r], order_hook)
+        check_user_definitions([p], [t], indep, [r], fail)
+        print("argv:", p.argv, "options:", {k: r[k] for k in ("level", "allow", "verbose", "sarif")})
+        print("exit status:", r["exit"])
+        shown = [e for e in r["events"] if e[0] == "diag"]
+        for e in r["events"][:60]:
+            print("  ", e)
+        if len(r["events"]) > 60:
+            print("   ... (%d events, %d diagnostics)" % (len(r["events"]), len(shown)))
+        print("user definitions (independent record):", indep[0])
+        print("analysis order logged by the binary  :", e2e.analysis_order(r["events"]))
+        print("model disagreements:", dis[0]["what"] if dis else "none")
+        print("property failures  :", fail[0]["what"] if fail else "none")
+        return 1 if (dis or fail) else 0
+    finally:
+        shutil.rmtree(base, ignore_errors=True)
